@@ -1,3 +1,4 @@
+//go:build verif
 // +build verif
 
 package raft
@@ -138,19 +139,19 @@ type simNode struct {
 	snapTask *task  // fsmSnapReq task of the running snapshot goroutine
 	snapArgs string // what the running snapshot goroutine captured when it was started
 
-	lis       *simListener
-	serveDone chan struct{}
-	serveErr  error
-	inc       int // incarnation counter
+	lis          *simListener
+	serveDone    chan struct{}
+	serveErr     error
+	inc          int // incarnation counter
 	abandonedInc int
-	dead      bool // could not be restarted
-	fsmOpen   bool // the FSM gate passes through (the raft goroutine is waiting for the FSM)
+	dead         bool // could not be restarted
+	fsmOpen      bool // the FSM gate passes through (the raft goroutine is waiting for the FSM)
 
 	drivers map[uint64]*driver
 
-	points   []string          // storage points passed in the current step
-	imageAt  int               // take a crash image at the imageAt-th point of this step (-1: none)
-	image    string            // directory of the image taken
+	points   []string           // storage points passed in the current step
+	imageAt  int                // take a crash image at the imageAt-th point of this step (-1: none)
+	image    string             // directory of the image taken
 	pending  map[*task]*simTask // outstanding tasks by internal task
 	panicked interface{}
 }
